@@ -189,6 +189,67 @@ func TestVerifC18(t *testing.T) {
 			}()
 		}
 	}
+	// 2c. the legacy virtuality field next to a set of subprogram flags: both are printed and read back as they are
+	for _, virt := range []enum.DwarfVirtuality{enum.DwarfVirtualityVirtual, enum.DwarfVirtualityPureVirtual} {
+		for _, fl := range sets(flagBits("DISPFlag")) {
+			fl := enum.DISPFlag(fl)
+			virt := virt
+			roundtrip(fmt.Sprintf("DISubprogram virtuality %d with DISPFlag set %#x", int64(virt), uint64(fl)), func(m *ir.Module) {
+				m.MetadataDefs = append(m.MetadataDefs, &metadata.DISubprogram{MetadataID: -1, Name: "f", Virtuality: virt, SPFlags: fl})
+			}, func(m *ir.Module) string {
+				if s := sp(m); s == nil || s.SPFlags != fl || s.Virtuality != virt {
+					return fmt.Sprintf("parsed back as virtuality %d, spFlags %#x", int64(sp(m).Virtuality), uint64(sp(m).SPFlags))
+				}
+				return ""
+			})
+		}
+	}
+	// 2d. function attribute keywords in attribute groups defined in several pieces (the pieces are merged): every
+	// ordered pair of keywords, one per piece, is read back as exactly those two values
+	for _, en := range verifC18Enums {
+		if en.typ != "FuncAttr" {
+			continue
+		}
+		has := func(m *ir.Module, v uint64) bool {
+			for _, g := range m.AttrGroupDefs {
+				for _, a := range g.FuncAttrs {
+					if fa, ok := a.(enum.FuncAttr); ok && uint64(fa) == v {
+						return true
+					}
+				}
+			}
+			return false
+		}
+		parse := func(text string) (m *ir.Module, err error) {
+			defer func() {
+				if e := recover(); e != nil {
+					err = fmt.Errorf("panic: %v", e)
+				}
+			}()
+			return ParseString("c18.ll", text)
+		}
+		var ok []int
+		for i, c := range en.consts {
+			// keywords that are read back as the plain FuncAttr value when written alone (uwtable, for one, is not)
+			if m, err := parse(fmt.Sprintf("attributes #0 = { %s }\n", c.str)); err == nil && has(m, c.val) {
+				ok = append(ok, i)
+			}
+		}
+		for _, i := range ok {
+			for _, j := range ok {
+				a, b := en.consts[i], en.consts[j]
+				cases++
+				m, err := parse(fmt.Sprintf("attributes #0 = { %s }\nattributes #0 = { %s }\n", a.str, b.str))
+				if err != nil {
+					fail("attribute group in two pieces { %s } { %s }: %v", a.str, b.str, err)
+					continue
+				}
+				if !has(m, a.val) || !has(m, b.val) {
+					fail("attribute group in two pieces { %s } { %s }: read back as %v", a.str, b.str, m.AttrGroupDefs[0].FuncAttrs)
+				}
+			}
+		}
+	}
 	for _, k := range sets(flagBits("AllocKind")) {
 		k := enum.AllocKind(k)
 		roundtrip(fmt.Sprintf("AllocKind set %#x", uint64(k)), func(m *ir.Module) {
